@@ -1,5 +1,7 @@
-// C14 conformance driver: hashes keys with xtl::murmur2_x86, murmur2_x64, hash_bytes (and the header's
-// generic fallback detail::murmur_hash<N>) at requested placements in memory and prints the results.
+// C14 conformance driver: hashes keys with xtl::murmur2_x86, murmur2_x64, hash_bytes (and, when built with
+// -DHAVE_GENERIC_FALLBACK, the header's generic fallback detail::murmur_hash<N> - a detail:: name, so the runner
+// only defines the macro when a probe compile says the name exists) at requested placements in memory and prints
+// the results.
 // No oracle here: TLC evaluates Murmur.tla on every recorded case (specs/MurmurCheck.tla).
 //
 //  {"op":"H","c":[[ [b0,b1,..], [s0,s1,s2,s3], [[kind,align,fill],..] ],..]}
@@ -13,6 +15,16 @@
 // placement kind 1 ("exact"):  the heap block is exactly align+len bytes, the key is its last len bytes
 //      (a read behind the key - and for align 0 also before it - is an AddressSanitizer report);
 //      the align bytes before the key hold `fill`.
+// placement kind 2 ("page-end"):  the key's last byte is the last byte of an mmap'ed page and the next page is
+//      PROT_NONE: a read behind the key faults in EVERY build (sanitizer or not).  The address is then fixed by the
+//      length (page end - len), `align` is ignored and echoed as the actual address modulo 8.
+// placement kind 3 ("page-start"): the key starts at the first byte of a page whose predecessor is PROT_NONE:
+//      a read before the key faults in every build; the bytes behind the key (rest of the page) hold `fill`.
+// placement kind 4 ("reused"): a buffer that lives as long as the process and is used for key after key (a record
+//      buffer that is filled and hashed again and again): the key lies 32+align bytes into it, `fill` around it.
+//      Consecutive keys of equal length then have the same address, length and seed and differ only in their bytes.
+// A fault / sanitizer report / a call that does not return (3 s of CPU time per script line) ends the output with
+// a Crash line.
 // The bytes printed are read back from the buffer that was hashed.  Built with
 // -fsanitize=address,bounds -fno-sanitize-recover=bounds.
 #include "vjson.hpp"
@@ -24,6 +36,38 @@
 #include <iostream>
 #include <string>
 #include <vector>
+#include <sys/mman.h>
+#include <sys/time.h>
+#include <unistd.h>
+
+static void on_watchdog(int sig)
+{
+    vj::crash_line(sig == SIGPROF ? "timeout: the call did not return within 3 s of CPU time" : "timeout: the call did not return within 90 s");
+    _exit(0);
+}
+static void arm_watchdog(long cpu_s, long wall_s)
+{
+    struct itimerval cpu = {{0, 0}, {cpu_s, 0}}, wall = {{0, 0}, {wall_s, 0}};
+    setitimer(ITIMER_PROF, &cpu, nullptr);
+    setitimer(ITIMER_REAL, &wall, nullptr);
+}
+
+// three pages: [PROT_NONE][read/write][PROT_NONE]; reused for every key that fits one page
+struct guarded_page
+{
+    unsigned char* base = nullptr;
+    std::size_t page = 0;
+    guarded_page()
+    {
+        page = static_cast<std::size_t>(sysconf(_SC_PAGESIZE));
+        void* p = mmap(nullptr, 3 * page, PROT_NONE, MAP_PRIVATE | MAP_ANONYMOUS, -1, 0);
+        if (p == MAP_FAILED) { std::fprintf(stderr, "mmap failed\n"); std::exit(3); }
+        base = static_cast<unsigned char*>(p);
+        if (mprotect(base + page, page, PROT_READ | PROT_WRITE) != 0) { std::fprintf(stderr, "mprotect failed\n"); std::exit(3); }
+    }
+    unsigned char* first() const { return base + page; }
+    unsigned char* end() const { return base + 2 * page; }
+};
 
 static std::string limbs_of(std::uint64_t v, int n)
 {
@@ -39,6 +83,9 @@ static std::string limbs_of(std::uint64_t v, int n)
 int main()
 {
     vj::install_crash_handlers();
+    std::signal(SIGPROF, on_watchdog);
+    std::signal(SIGALRM, on_watchdog);
+    guarded_page gp;
     std::string line;
     while (std::getline(std::cin, line))
     {
@@ -52,7 +99,13 @@ int main()
             continue;
         }
         if (op != "H") { std::fprintf(stderr, "script: unknown op %s\n", op.c_str()); return 3; }
-        std::string o = "{\"op\":\"H\",\"szt\":" + std::to_string(sizeof(std::size_t)) + ",\"c\":[";
+        arm_watchdog(3, 90);
+#ifdef HAVE_GENERIC_FALLBACK
+        const char* gen = "1";
+#else
+        const char* gen = "0";
+#endif
+        std::string o = "{\"op\":\"H\",\"szt\":" + std::to_string(sizeof(std::size_t)) + ",\"gen\":" + gen + ",\"c\":[";
         bool first = true;
         for (const vj::value& c : ev.at("c").a)
         {
@@ -67,18 +120,41 @@ int main()
                 int kind = int(pl.a[0].i);
                 std::size_t align = std::size_t(pl.a[1].i);
                 unsigned char fill = (unsigned char)pl.a[2].i;
-                if (align > 15 || (kind != 0 && kind != 1)) { std::fprintf(stderr, "script: bad placement\n"); return 3; }
-                std::size_t total = kind == 0 ? 32 + align + len + 48 : align + len;
-                unsigned char* block = static_cast<unsigned char*>(std::malloc(total));   // malloc(0): a pointer no byte of which may be touched
-                if (!block) { std::fprintf(stderr, "malloc failed\n"); return 3; }
-                if (total) std::memset(block, fill, total);
-                unsigned char* key = block + (kind == 0 ? 32 + align : align);
+                if (align > 15 || kind < 0 || kind > 4) { std::fprintf(stderr, "script: bad placement\n"); return 3; }
+                static std::vector<unsigned char> reused;
+                if (kind >= 2 && len > gp.page) kind = 1;            // does not fit the guarded page: exact heap block instead
+                unsigned char* block = nullptr;
+                unsigned char* key;
+                if (kind <= 1)
+                {
+                    std::size_t total = kind == 0 ? 32 + align + len + 48 : align + len;
+                    block = static_cast<unsigned char*>(std::malloc(total));   // malloc(0): a pointer no byte of which may be touched
+                    if (!block) { std::fprintf(stderr, "malloc failed\n"); return 3; }
+                    if (total) std::memset(block, fill, total);
+                    key = block + (kind == 0 ? 32 + align : align);
+                }
+                else if (kind == 4)
+                {
+                    if (reused.size() < len + 128) reused.resize(len + 128 + 65536);      // grows rarely; the address is stable in between
+                    std::memset(reused.data(), fill, len + 128);
+                    key = reused.data() + 32 + align;
+                }
+                else
+                {
+                    std::memset(gp.first(), fill, gp.page);
+                    key = kind == 2 ? gp.end() - len : gp.first();
+                    align = static_cast<std::size_t>(reinterpret_cast<std::uintptr_t>(key) & 7u);
+                }
                 for (std::size_t i = 0; i < len; ++i) key[i] = (unsigned char)kb.a[i].i;
 
                 std::uint32_t r32 = xtl::murmur2_x86(key, len, static_cast<std::uint32_t>(seed));
                 std::uint64_t r64 = xtl::murmur2_x64(key, len, seed);
                 std::size_t rhb = xtl::hash_bytes(key, len, static_cast<std::size_t>(seed));
+#ifdef HAVE_GENERIC_FALLBACK
                 std::size_t rgen = xtl::detail::murmur_hash<2>(key, len, static_cast<std::size_t>(seed));   // primary template
+#else
+                std::size_t rgen = 0;
+#endif
 
                 if (echoed.empty())
                 {
@@ -90,7 +166,7 @@ int main()
                 obs += "[" + std::to_string(kind) + "," + std::to_string(align) + "," + std::to_string((int)fill) + ","
                      + limbs_of(r32, 2) + "," + limbs_of(r64, 4) + "," + limbs_of(static_cast<std::uint64_t>(rhb), 4) + ","
                      + limbs_of(static_cast<std::uint64_t>(rgen), 4) + "]";
-                std::free(block);
+                if (block) std::free(block);
             }
             if (!first) o += ',';
             first = false;
@@ -100,5 +176,6 @@ int main()
         std::fputs(o.c_str(), stdout);
         std::fflush(stdout);
     }
+    arm_watchdog(0, 0);
     return 0;
 }
